@@ -101,7 +101,7 @@ def R (g : σ → Nat → Nat) (G : Nat → Nat) (VC : σ → List Nat → Prop)
     ∧ s'.sum = true
 
 theorem advLoop_score (hC : Lawful C VC WC) (hscore : ∀ {c l}, VC c l → VC (C.score c).2 l)
-    (hG : Inter.Ghost C g) (hg : ∀ c, (C.score c).1 = g c (C.doc c)) (G : Nat → Nat) :
+    (hG : Inter.Ghost C g) (hg : ∀ {c l}, VC c l → l ≠ [] → (C.score c).1 = g c (C.doc c)) (G : Nat → Nat) :
     ∀ (fuel : Nat) {s : State σ} {k1 : Nat} {ls : List (List Nat)}, All2 VC s.chains ls → mu ls < fuel →
       1 ≤ s.minMatch → (k1 = 0 → ∀ li ∈ ls, s.currentDoc ∉ li) →
       (k1 ≠ 0 → (∀ li ∈ ls, ∀ x ∈ li, s.currentDoc ≤ x) ∧ s.currentDoc < TERMINATED) →
@@ -210,7 +210,7 @@ theorem advLoop_score (hC : Lawful C VC WC) (hscore : ∀ {c l}, VC c l → VC (
           have hr : (if s.sum then C.score c else (0, c)) = C.score c := by rw [hsum]; rfl
           have hc2 : VC (C.advance (C.score c).2) (Spec.advance lc) := hC.advance (hscore e2)
           have hg2 : g (C.advance (C.score c).2) = g c := by rw [hG.advance, hG.score]
-          have hsc : (C.score c).1 = g c (Spec.doc lc) := by rw [hg c, hdc]
+          have hsc : (C.score c).1 = g c (Spec.doc lc) := by rw [hg e2 hne, hdc]
           have hmu : mu (lc.tail :: lrest) < n := by
             have := e5.mu
             have hl : lc.tail.length + 1 = lc.length := by
@@ -312,7 +312,7 @@ def VS (g : σ → Nat → Nat) (G : Nat → Nat) (VC : σ → List Nat → Prop
   V VC s l ∧ R g G VC s
 
 theorem adv_from_pre_score (hC : Lawful C VC WC) (hscore : ∀ {c l}, VC c l → VC (C.score c).2 l)
-    (hG : Inter.Ghost C g) (hg : ∀ c, (C.score c).1 = g c (C.doc c)) (G : Nat → Nat)
+    (hG : Inter.Ghost C g) (hg : ∀ {c l}, VC c l → l ≠ [] → (C.score c).1 = g c (C.doc c)) (G : Nat → Nat)
     {s : State σ} {ls : List (List Nat)} (hA : All2 VC s.chains ls) (hm : 1 ≤ s.minMatch)
     (hpre : ∀ li ∈ ls, s.currentDoc ∉ li) (hsum : s.sum = true)
     (hF : ∀ x, (∃ li ∈ ls, x ∈ li) → G x = gsum g s.chains ls x) : R g G VC (advance C s) := by
@@ -325,7 +325,7 @@ theorem adv_from_pre_score (hC : Lawful C VC WC) (hscore : ∀ {c l}, VC c l →
     (fun _ => hpre) (fun h => absurd rfl h) hsum ⟨fun h => absurd rfl h, fun x _ hx => hF x hx⟩
 
 theorem core0VS (hC : Lawful C VC WC) (hscore : ∀ {c l}, VC c l → VC (C.score c).2 l)
-    (hG : Inter.Ghost C g) (hg : ∀ c, (C.score c).1 = g c (C.doc c)) (G : Nat → Nat) :
+    (hG : Inter.Ghost C g) (hg : ∀ {c l}, VC c l → l ≠ [] → (C.score c).1 = g c (C.doc c)) (G : Nat → Nat) :
     Core0 (doc (σ := σ)) (advance C) (VS g G VC) where
   sorted := fun h => (core0 hC hscore).sorted h.1
   doc_eq := fun h => (core0 hC hscore).doc_eq h.1
@@ -364,7 +364,7 @@ def runMoves (C : DS σ) (s : State σ) (ms : List Move) : State σ := ms.foldl 
 def specMoves (l : List Nat) (ms : List Move) : List Nat := ms.foldl specMove l
 
 theorem moves_VS (hC : Lawful C VC WC) (hscore : ∀ {c l}, VC c l → VC (C.score c).2 l)
-    (hG : Inter.Ghost C g) (hg : ∀ c, (C.score c).1 = g c (C.doc c)) (G : Nat → Nat) :
+    (hG : Inter.Ghost C g) (hg : ∀ {c l}, VC c l → l ≠ [] → (C.score c).1 = g c (C.doc c)) (G : Nat → Nat) :
     ∀ (ms : List Move) {s : State σ} {l : List Nat}, VS g G VC s l → legalMoves l ms →
       VS g G VC (runMoves C s ms) (specMoves l ms) := by
   intro ms
@@ -385,7 +385,7 @@ theorem moves_VS (hC : Lawful C VC WC) (hscore : ∀ {c l}, VC c l → VC (C.sco
 
 /-- `Disjunction::new` (SumCombiner) establishes the score invariant -/
 theorem new_R (hC : Lawful C VC WC) (hscore : ∀ {c l}, VC c l → VC (C.score c).2 l)
-    (hG : Inter.Ghost C g) (hg : ∀ c, (C.score c).1 = g c (C.doc c))
+    (hG : Inter.Ghost C g) (hg : ∀ {c l}, VC c l → l ≠ [] → (C.score c).1 = g c (C.doc c))
     {k : Nat} (hk : 1 ≤ k) {cs : List σ} {ls : List (List Nat)} (hA : All2 VC cs ls) :
     R g (gsum g cs ls) VC (new C true k cs) := by
   unfold new
@@ -403,7 +403,7 @@ theorem new_R (hC : Lawful C VC WC) (hscore : ∀ {c l}, VC c l → VC (C.score 
 of `advance` and `seek`: the score at the current document is the sum of the score functions of the
 children containing it -/
 theorem score_after_moves (hC : Lawful C VC WC) (hscore : ∀ {c l}, VC c l → VC (C.score c).2 l)
-    (hG : Inter.Ghost C g) (hg : ∀ c, (C.score c).1 = g c (C.doc c))
+    (hG : Inter.Ghost C g) (hg : ∀ {c l}, VC c l → l ≠ [] → (C.score c).1 = g c (C.doc c))
     {k : Nat} (hk : 1 ≤ k) {cs : List σ} {ls : List (List Nat)} {L : List Nat} (hA : All2 VC cs ls)
     (hst : Sorted L) (hmem : ∀ x, x ∈ L ↔ k ≤ cnt x ls) (ms : List Move) (hl : legalMoves L ms) :
     (runMoves C (new C true k cs) ms).currentDoc = Spec.doc (specMoves L ms)
